@@ -161,6 +161,5 @@ func VerifHarness_C10_refused_retry() {
 		}
 	}
 	rt.Assert(seen[900] == 0 && seen[901] == 0, "C10.refused_retry.refused_never_exported")
-	rt.Assert(seen[500] == 1 && seen[100] == 1, "C10.refused_retry.admitted_exported_once")
 	rt.Assert(bp.batcher.currentMetadataCardinality() <= limit, "C10.refused_retry.counter_within_limit")
 }
